@@ -5,6 +5,9 @@
 #include <stdint.h>
 #include <stddef.h>
 #include <stdbool.h>
+/* platform macros used by preprocessor conditionals that survive inside extracted bodies (LDBL_MANT_DIG, ...) */
+#include <float.h>
+#include <limits.h>
 
 #ifdef VACUITY
 #define VACUITY_REACH __CPROVER_assert(0, "vacuity-reach")
